@@ -353,7 +353,7 @@ def witnesses(rep):
         M = wm["m"]
         if is_const(flag, True):
             # LP path: must be dominated by the re-check `if not np.all(m > eps): return None, True`
-            checks = [n for n in cfg.stmts() if isinstance(n, ast.If) and norm(n.test).replace(" ", "") in (f"notnp.all({M}>eps)", f"not(np.all({M}>eps))")
+            checks = [n for n in cfg.stmts() if isinstance(n, ast.If) and pmatch(f"not np.all({M} > eps)", n.test) is not None
                       and isinstance(n.body[-1], ast.Return)]
             ok = bool(checks) and cfg.all_paths_pass(ENTRY, r, checks, {checks[0]: False})
             rep.ob("O17.3", "DOM", fi, ok, "return m / np.sum(m), True", "an LP witness is returned only after it was re-checked to be strictly positive", node=r)
